@@ -1247,6 +1247,72 @@ lyd_val_uniq_find_leaf(const struct lysc_node_leaf *uniq_leaf, const struct lyd_
 }
 
 /**
+ * @brief Get the default value of a list unique leaf if it is in use in a list instance (RFC 7950 sec. 7.6.1).
+ *
+ * The leaf has no instance so its default value is used only if all its parents up to the list exist or are
+ * non-presence containers and if it is in a case, that the case is selected (or is the default one and no other is).
+ *
+ * @param[in] uniq_leaf Unique leaf without an instance.
+ * @param[in] list List instance to use for the search.
+ * @return Default value of the leaf in use, NULL if there is none.
+ */
+static struct lyd_value *
+lyd_val_uniq_dflt_in_use(const struct lysc_node_leaf *uniq_leaf, const struct lyd_node *list)
+{
+    const struct lysc_node *iter, *schoice;
+    const struct lyd_node *siblings;
+    struct lyd_node *node;
+    size_t depth = 0, i;
+
+    if (!uniq_leaf->dflt) {
+        return NULL;
+    }
+
+    /* get leaf depth including all the schema-only parents */
+    for (iter = uniq_leaf->parent; iter && (iter != list->schema); iter = iter->parent) {
+        ++depth;
+    }
+
+    siblings = lyd_child(list);
+    while (depth) {
+        /* find the schema parent with this depth */
+        for (i = depth - 1, iter = uniq_leaf->parent; i; iter = iter->parent) {
+            --i;
+        }
+
+        if (iter->nodetype == LYS_CASE) {
+            schoice = iter->parent;
+            if (lys_getnext_data(NULL, siblings, NULL, schoice, NULL)) {
+                /* some case data exist, must be of this case */
+                if (!lys_getnext_data(NULL, siblings, NULL, iter, NULL)) {
+                    return NULL;
+                }
+            } else if (!((struct lysc_node_choice *)schoice)->dflt ||
+                    (&((struct lysc_node_choice *)schoice)->dflt->node != iter)) {
+                /* not the default case */
+                return NULL;
+            }
+        } else if (iter->nodetype == LYS_CONTAINER) {
+            node = NULL;
+            lyd_find_sibling_val(siblings, iter, NULL, 0, &node);
+            if (node) {
+                siblings = lyd_child(node);
+            } else if (iter->flags & LYS_PRESENCE) {
+                /* presence container does not exist */
+                return NULL;
+            } else {
+                /* non-existing NP container, has no children */
+                siblings = NULL;
+            }
+        }
+
+        --depth;
+    }
+
+    return uniq_leaf->dflt;
+}
+
+/**
  * @brief Unique list validation callback argument.
  */
 struct lyd_val_uniq_arg {
@@ -1299,7 +1365,7 @@ uniquecheck:
                 val1 = &((struct lyd_node_term *)diter)->value;
             } else {
                 /* use default value */
-                val1 = slist->uniques[u][v]->dflt;
+                val1 = lyd_val_uniq_dflt_in_use(slist->uniques[u][v], first);
             }
 
             /* second */
@@ -1308,7 +1374,7 @@ uniquecheck:
                 val2 = &((struct lyd_node_term *)diter)->value;
             } else {
                 /* use default value */
-                val2 = slist->uniques[u][v]->dflt;
+                val2 = lyd_val_uniq_dflt_in_use(slist->uniques[u][v], second);
             }
 
             if (!val1 || !val2 || val1->realtype->plugin->compare(ctx, val1, val2)) {
@@ -1436,7 +1502,7 @@ lyd_validate_unique(const struct lyd_node *first, const struct lysc_node *snode,
                         val = &((struct lyd_node_term *)diter)->value;
                     } else {
                         /* use default value */
-                        val = uniques[u][v]->dflt;
+                        val = lyd_val_uniq_dflt_in_use(uniques[u][v], set->objs[i]);
                     }
                     if (!val) {
                         /* unique item not present nor has default value */
